@@ -65,15 +65,36 @@ class CoreOps:
         if k < 0.35 or not x[1]:
             y = g.mpf(prec)
             rel = "independent"
-        elif k < 0.7:
+        elif k < 0.6:
             y = g.near(x, prec)
             rel = "near"
+        elif k < 0.72:
+            # guard-distance boundary of mpf_add's "outside precision range" shortcut, enumerated: top bits prec-1 .. prec+6
+            # apart, exponent fields more than 100 apart (long tiny operand), large operand a power of two half of the time
+            # (a subtraction then lands in the binade below, where the tiny operand is worth twice as many ulps)
+            if r.random() < 0.5:
+                x = L.from_man_exp(r.choice([1, -1]), x[2])
+            top_gap = prec + r.randint(-1, 6)
+            nb = max(1, 101 - top_gap + x[3] + r.choice([0, 1, 2, 9]))
+            m = g.man(nb, None)
+            y = L.from_man_exp(m if r.random() < 0.5 else -m, x[2] + x[3] - top_gap - nb)
+            rel = "guard-boundary"
         else:
             # exponent gaps around the literals in mpf_add: 100, prec+4
             nb = g.nbits(prec)
-            m = g.man(nb, prec)
-            top_gap = r.choice([prec + 3, prec + 4, prec + 5, prec + 6, 2 * prec, 99, 100, 101, 102, 150, 1000])
+            top_gap = r.choice([prec - 1, prec, prec + 1, prec + 2, prec + 3, prec + 4, prec + 5, prec + 6, 2 * prec, 99, 100, 101, 102, 150, 1000])
             lowgap = r.choice([99, 100, 101, 102, 103, 150, 400])
+            if r.random() < 0.4:
+                # the large operand sparse (power of two, all ones, 2^k+1, longer than prec): a subtraction crosses into the
+                # binade below, an addition carries into the one above -- where a tiny operand just under/over the guard
+                # distance decides the rounding
+                xm = r.choice([1, 1, 1, (1 << r.choice([2, max(2, prec - 1), prec, prec + 1, prec + 7])) - 1,
+                               (1 << r.choice([1, max(1, prec - 1), prec, prec + 3])) + 1])
+                x = L.from_man_exp(xm if r.random() < 0.5 else -xm, x[2])
+            if r.random() < 0.6:
+                # long tiny operand: the exponent FIELDS differ by about 100 although the top bits are top_gap apart
+                nb = max(1, 101 - top_gap + x[3] + r.choice([-2, -1, 0, 1, 2, 5, 40]))
+            m = g.man(nb, prec)
             if r.random() < 0.5:
                 # place y so that offset = x.exp - y.exp = lowgap
                 e = x[2] - lowgap
@@ -112,6 +133,8 @@ class CoreOps:
         m = g.man(nb, prec)
         if one:
             m |= 1
+        elif g.r.random() < 0.12:
+            m = g.boundary_man(prec)
         elif g.r.random() < 0.5:
             m <<= g.r.choice([1, 2, 3, 7, 8, 9, 16, 40])
         if g.r.random() < 0.02:
@@ -132,6 +155,8 @@ class CoreOps:
         prec = g.prec() if g.r.random() < 0.7 else 0
         rnd = g.rnd()
         m = g.man(g.nbits(prec or None), prec or None) << g.r.choice([0, 0, 1, 2, 3, 8, 9, 20])
+        if prec and g.r.random() < 0.12:
+            m = g.boundary_man(prec)
         if g.r.random() < 0.02:
             m = 0
         sign = g.r.randint(0, 1)
